@@ -113,6 +113,7 @@ structure PlainMon where
   pending : Option Bytes
 
 def plainSpecHs (toks : List String) (outs : List String) : Option (PlainMon Ã— String) := do
+  if outs.head? == some "panic" then some (âŸ¨noneâŸ©, "FAIL:plaintext_panic") else
   let a â† parseHsArgs toks
   let v â† parseHsRes outs
   let stream := a.chunks.flatten
@@ -185,6 +186,7 @@ def pnetOp (ks : Array Nat) (s : PnetSt) (args : List String) : Option (PnetSt Ã
   some (s', showPOut out)
 
 def pnetSpec (ks : Array Nat) (m : PnetMon) (args outs : List String) : PnetMon Ã— String :=
+  if outs.head? == some "panic" then (m, "FAIL:pnet_panic") else
   match parsePOp args, parsePOut outs with
   | some op, some out => pnetJudge (ksFn ks) m op out
   | _, _ => (m, "FAIL:unparsable")
